@@ -205,10 +205,18 @@ PROTO4('vtmf_decrypt', 'h_w_decrypt', 'decryption share computed with a key othe
 
 # ------------------------------------------------------------------ C01
 H(id='C01_cs_xor', property='C01', src='C01_card.cc', entry='h_cs_xor', tu=['SchindelhauerTMCG.cc', 'TMCG_CardSecret.cc', 'TMCG_PublicKey.cc', 'TMCG_Card.cc'], unwind=6, unwindset={'_ZNSt11char_traitsIcE6lengthEPKc.0': 64, '_ZNSs6appendEPKcm.1': 64}, timeout=1500, replace=PROTO_REPLACE,
-  defines={'VF_BITS': 12, 'H_MAXDRAWS': 40, 'H_DBITS': 4, 'MINISTL_STREAM_CAP': 128, 'H_COINS_UNITS': 1}, config={'TMCG_MAX_FPOWM_T': 8, 'TMCG_MAX_PLAYERS': 4, 'TMCG_MAX_TYPEBITS': 3},
+  defines={'VF_BITS': 12, 'H_MAXDRAWS': 40, 'H_DBITS': 4, 'MINISTL_STREAM_CAP': 128}, config={'TMCG_MAX_FPOWM_T': 8, 'TMCG_MAX_PLAYERS': 4, 'TMCG_MAX_TYPEBITS': 3},
   desc='quadratic-residue encoding: a fresh card secret preserves the type (bit columns XOR to 0) for k players', symbolic='player index, all random bits and masking values',
-  bounds='k = 2,3 players (one query each), w = 2 type bits, modulus 21; rejection sampling of units succeeds at the first draw', assumptions=PROTO_ASSUME, slices=[{'H_KPL': k} for k in (2, 3)], backend='kissat', memgb=8)
+  bounds='k = 2,3,4 players (one query each), w = 2 type bits; moduli set to 1 so that masking values are concrete (the bit logic does not depend on them)', assumptions=PROTO_ASSUME, slices=[{'H_KPL': k} for k in (2, 3, 4)], backend='kissat', memgb=8)
 
 # ------------------------------------------------------------------ C11 (real text operators)
 H(id='C11_mpz_text', property='C11', src='C11_roundtrip.cc', entry='h_mpz_text', tu=['mpz_helper.cc'], unwind=12, defines={'VF_BITS': 13, 'H_VMAX': 4000, 'MINISTL_STREAM_CAP': 64},
   desc='operator<< / operator>> for mpz (base-62 text): value and text round trip', symbolic='integer in [-4000, 4000]', bounds='|v| <= 4000 (up to two base-62 digits and sign)', models=GCRY_MODELS, backend='kissat')
+PROTO('C03', 'pedersen', 'C03_pedersen.cc', 'h_pedersen', 'Pedersen commitment: Commit -> Verify accepted, CommitBy reproduces, another message vector refused; n = 3 > TMCG_MAX_FPOWM_N = 2',
+      'three messages, randomizer, timing flag, edited position and value', tu=['PedersenCOM.cc', 'mpz_spowm.cc', 'mpz_sprime.cc'], groups=[dict(H_P=11, H_Q=5, H_K=2, VF_BITS=9)], groupsT=[dict(H_P=11, H_Q=5, H_K=2, VF_BITS=9)])
+HARNESSES[-1]['config'] = {'TMCG_MAX_FPOWM_T': 8, 'TMCG_MAX_FPOWM_N': 2}
+
+# ------------------------------------------------------------------ C20 (structural core)
+H(id='C20_sig_validity', property='C20', src='C20_validity.cc', entry='h_sig_validity', tu=PGP, unwind=8, models=GCRY_MODELS,
+  desc='TMCG_OpenPGP_Signature::CheckValidity == specification (expiry, older than key, > 25 h in the future, weak hash)', symbolic='creation, expiration, key creation time (all 32-bit values), current time (any value < 2^40), hash id (all 256)',
+  bounds='full 32-bit time fields', assumptions=['time() returns an arbitrary instant'])
